@@ -54,13 +54,102 @@ class CountedYieldLoop:
         pos_add(ctx, n)
 
 
+class CountdownWhileLoop:
+    """`while <test over one integer local c>: <body>` meant to do something exactly max(c0, 0) times and stop
+    (the while-form of consume_bytes).  Rule, for the entry value c0 of c:
+      (I) the loop is entered iff c0 >= 1;
+      (A) an arbitrary iteration from 1 <= c <= c0: the guard holds, the real body, executed once, requests exactly one
+          byte, emits nothing and leaves c - 1 (invariant 0 <= c <= c0 kept, variant c decreases);
+      (E) with c = 0 the guard is false;
+    then the trace has gained max(c0, 0) discarded Needs."""
+
+    kind = "while"
+
+    def __init__(self, label="consume_bytes"):
+        self.label = label
+
+    def run(self, I, node, frame):
+        import ast as _ast
+
+        ctx = I.ctx
+        site = I.site(node, frame)
+        names = sorted({n.id for n in _ast.walk(node.test) if isinstance(n, _ast.Name) and isinstance(frame.locals.get(n.id), (S.SInt, int)) and not isinstance(frame.locals.get(n.id), bool)})
+        if len(names) != 1:
+            raise Unsupported(f"CountdownWhileLoop: the guard does not test exactly one integer local ({names})")
+        cn = names[0]
+        c0v = frame.locals[cn]
+        if isinstance(c0v, int):
+            # concrete count: plain execution with a generous cap
+            for _ in range(max(c0v, 0) + 2):
+                t = yield from I.eval(node.test, frame)
+                if not I.truth(t):
+                    return
+                yield from I.exec_block(node.body, frame)
+            ctx.record(f"LOOP/{self.label}/terminates-after-count-iterations", False, "loop", site, detail=f"count {c0v}")
+            raise PathEnd("loop-iteration")
+        c0 = S.term(c0v)
+        which = ctx.fork([z3.BoolVal(True)] * 3, f"loop:{self.label}")
+        if which == 0:
+            # (I) entry
+            t = yield from I.eval(node.test, frame)
+            entered = I.truth(t)
+            ctx.oblige(f"LOOP/{self.label}/entered-iff-count-is-positive", (c0 >= 1) if entered else (c0 <= 0), "loop", site,
+                       detail="the loop must run exactly when there is something to consume (a negative count consumes nothing)")
+            raise PathEnd("loop-iteration")
+        if which == 1:
+            # (A) arbitrary iteration / (E) exit value
+            c = ctx.fresh_int("c", 0)
+            if not ctx.solver.feasible(z3.And(c >= 0, c <= c0)):
+                raise PathEnd("infeasible")
+            ctx.assume(c <= c0)
+            frame.locals[cn] = S.SInt(c)
+            t = yield from I.eval(node.test, frame)
+            if not I.truth(t):
+                ctx.oblige(f"LOOP/{self.label}/guard-false-only-at-zero", c == 0, "loop", site)
+                raise PathEnd("loop-iteration")
+            ctx.oblige(f"LOOP/{self.label}/guard-true-only-above-zero", c >= 1, "loop", site)
+            before = len(ctx.trace)
+            yield from I.exec_block(node.body, frame)
+            seg = ctx.trace[before:]
+            ok = len(seg) == 1 and seg[0][0] == "need"
+            ctx.record(f"LOOP/{self.label}/iteration-consumes-exactly-one-byte", ok, "loop", site, detail=f"iteration trace {seg!r}")
+            c1 = frame.locals.get(cn)
+            if isinstance(c1, (S.SInt, int)) and not isinstance(c1, bool):
+                ctx.oblige(f"LOOP/{self.label}/count-decreases-by-one", S.term(c1) == c - 1, "loop", site)
+            else:
+                ctx.record(f"LOOP/{self.label}/count-decreases-by-one", False, "loop", site, detail=repr(c1))
+            raise PathEnd("loop-iteration")
+        n = z3.simplify(z3.If(c0 >= 0, c0, z3.IntVal(0)))
+        frame.locals[cn] = S.SInt(z3.simplify(z3.If(c0 >= 0, z3.IntVal(0), c0)))
+        ctx.trace.append(("needs", n))
+        pos_add(ctx, n)
+
+
+class CountedLoopAny:
+    """consume_bytes in either form: `for _ in range(count)` or `while count: ...; count -= 1`"""
+
+    kind = None
+
+    def __init__(self, label="consume_bytes"):
+        self.f = CountedYieldLoop(label)
+        self.w = CountdownWhileLoop(label)
+
+    def run(self, I, node, frame):
+        import ast as _ast
+
+        yield from (self.f if isinstance(node, _ast.For) else self.w).run(I, node, frame)
+
+
 class OneStepLoop:
     """step refinement: execute the loop body exactly once from a given state (locals installed at the loop head);
     the outcome (how the body ended, locals afterwards) is left in ctx.ghost['step']; yields go to the driver"""
 
-    def __init__(self, state, kind=None):
+    def __init__(self, state, kind=None, seed_empty_lists=None):
         self.state = state
         self.kind = kind
+        # accumulators the code keeps besides `state`: every local that is an empty list at the loop head is replaced by a
+        # copy of the seed (an arbitrary earlier content); their names are left in ctx.ghost['step_seeded']
+        self.seed_empty_lists = seed_empty_lists
 
     def run(self, I, node, frame):
         from .interp import _Continue, _Break
@@ -72,6 +161,11 @@ class OneStepLoop:
             it = yield from I.eval(node.iter, frame)
             frame.locals["__loop_iterable__"] = it
         frame.locals.update(self.state)
+        if self.seed_empty_lists is not None:
+            names = [n for n, v in frame.locals.items() if type(v) is list and not v and n not in self.state and not n.startswith("__")]
+            for n in names:
+                frame.locals[n] = list(self.seed_empty_lists)
+            I.ctx.ghost["step_seeded"] = names
         how = "fallthrough"
         try:
             yield from I.exec_block(node.body, frame)
